@@ -157,8 +157,22 @@ def scenario_pass2(rng, case, val):
         # deposit a few hills/kernels around the base geometry, then sweep at an odd step
         # metadynamics adds no hill at a repeated ("continuing") step; OPES has no such rule, so its kernels are
         # frozen by sweeping at an odd step (newHillFrequency 2)
-        for k in range(7 if case["bias"] == "meta" else 8):
-            s += corpus.pos_line(jitter(rng, pos, 0.15)) + "\nstep\n"
+        restart = case["bias"] == "meta" and rng.random() < 0.5
+        nst = 7 if case["bias"] == "meta" else 8
+        for k in range(nst):
+            # (a restarted run checks that the value of its first step is the one in the state file: last step at the base geometry)
+            s += corpus.pos_line(pos if (restart and k == nst - 1) else jitter(rng, pos, 0.15)) + "\nstep\n"
+        if restart:
+            # the hills were deposited by an earlier run with another hillWidth: stop, restart from the state file with a new
+            # width (every hill carries its own), sweep at the repeated step
+            m = re.search(r"hillWidth (\S+)", bt)
+            w2 = fnum(float(m.group(1)) * rng.choice([0.5, 1.5, 2.0]))
+            bt2 = bt.replace("hillWidth " + m.group(1), "hillWidth " + w2)
+            case["bias_text"] = bt + "# restarted with:\n" + bt2
+            s += "save c01st.colvars.state\ndelete\n"
+            s += corpus.scenario_header(case["sysm"], extra="temp 300.0\ndt 1.0") + "emit cv off\nemit bias off\n"
+            s += "module\nconfig <<EOC\n" + case["cv"]["text"] + "\n" + bt2 + "EOC\ninprefix c01st\ninit\n"
+            case["bias"] = "meta_restart"
         s += corpus.pos_line(pos) + "\n"
         s += "fdsweep %s cont\n" % fnum(H)
         if case["bias"] == "opes":
